@@ -38,7 +38,7 @@ PRIMARIES = {('AttackGraph', 'nodes'), ('AttackGraph', 'attackers'), ('Model', '
 DETACH = {
     ('AttackGraph', 'nodes'): ([('parents', 'AttackGraphNode'), ('children', 'AttackGraphNode'),
                                 ('compromised_by|reached_attack_steps', 'Attacker'),
-                                ('entry_points@attackers', 'Attacker')], ('C09', 'C13')),
+                                ('entry_points@attackers', 'Attacker')], ('C09', 'C13', 'C10')),
     ('AttackGraph', 'attackers'): ([('compromised_by', 'AttackGraphNode')], ('C09', 'C11')),
     ('Model', 'assets'): ([(DYN, ''), ('entry_points', 'AttackerAttachment')], ('C05',)),
     ('Model', 'associations'): ([('associations', 'pjs')], ('C05',)),
